@@ -381,7 +381,7 @@ func RunFromEnv(t *testing.T) {
 		})
 		out := def.Case(env, tape)
 		wd.Stop()
-		res := map[string]any{"violation": out.V, "sample": out.Sample}
+		res := map[string]any{"violation": out.V, "sample": out.Sample, "digest": strconv.FormatUint(out.Digest, 16)}
 		jb, _ := json.MarshalIndent(res, "", " ")
 		if env.Out != "" {
 			os.WriteFile(env.Out, jb, 0o644)
